@@ -167,6 +167,15 @@ type c15tr struct {
 	funcLits  *[][2]string
 	others    *[][2]string
 	depth     int
+	recvOK    map[*ast.CallExpr]bool // Recv calls that are a top-level statement of a for body
+	sessLoops *[]c15SessLoop         // per-message loops found (handler being translated, body)
+}
+
+// c15SessLoop: a `for` whose body receives one request per iteration.
+type c15SessLoop struct {
+	fn   string
+	body *hs
+	line int
 }
 
 func (t *c15tr) lose(what string) {
@@ -311,6 +320,12 @@ func (t *c15tr) callStmt(ce *ast.CallExpr) *hs {
 	if name == c15CheckFn {
 		// a check whose result is not bound-and-tested: the denial has no consequence
 		return t.check(ce, hSkip)
+	}
+	if name == "Recv" && len(ce.Args) == 0 {
+		// the only shape understood: `req, err := <stream>.Recv(); if err != nil {…}` as
+		// top-level statements of a for body (handled in block)
+		t.lose(fmt.Sprintf("Recv at api.go:%d is not `x, err := s.Recv(); if err != nil {…}` at the top level of a for body: per-message shape not understood", t.f.fset.Position(ce.Pos()).Line))
+		return hSkip
 	}
 	if ln := t.localName(ce); ln != "" {
 		if c15ReportFns[ln] {
@@ -471,7 +486,7 @@ func (t *c15tr) block(list []ast.Stmt) *hs {
 			continue
 		}
 		// req, err := stream.Recv() ; if err != nil { no request }
-		if v := t.isRecvAssign(s); v != "" && i+1 < len(list) {
+		if v := t.isRecvAssign(s); v != "" && i+1 < len(list) && t.recvOK[s.(*ast.AssignStmt).Rhs[0].(*ast.CallExpr)] {
 			if is, ok := list[i+1].(*ast.IfStmt); ok && is.Init == nil && neqNil(is.Cond) == v && is.Else == nil {
 				body := t.with(v, false, true, func() *hs { return t.block(is.Body.List) })
 				out = hSeq(out, hIte(body, hSkip))
@@ -580,7 +595,21 @@ func (t *c15tr) stmt(s ast.Stmt) *hs {
 		return hSeq(pre, hIte(th, el))
 	case *ast.ForStmt:
 		pre := hSeq(t.stmt(x.Init), t.exprCalls(x.Cond))
+		// per-message loop: a top-level statement of the body receives the next request
+		nrecv := 0
+		for _, bs := range x.Body.List {
+			if t.isRecvAssign(bs) != "" {
+				t.recvOK[bs.(*ast.AssignStmt).Rhs[0].(*ast.CallExpr)] = true
+				nrecv++
+			}
+		}
 		body := hSeq(t.block(x.Body.List), t.stmt(x.Post))
+		if nrecv > 0 {
+			if nrecv > 1 || x.Cond != nil || x.Init != nil || x.Post != nil {
+				t.lose(fmt.Sprintf("per-message loop at api.go:%d: more than one Recv per iteration or a loop header", t.f.fset.Position(x.Pos()).Line))
+			}
+			*t.sessLoops = append(*t.sessLoops, c15SessLoop{t.fn, body, t.f.fset.Position(x.Pos()).Line})
+		}
 		if body.k == "skip" {
 			return pre
 		}
@@ -654,6 +683,44 @@ func parserParse(fset *token.FileSet, p string) (*ast.File, error) {
 	return parser.ParseFile(fset, p, nil, 0)
 }
 
+// c15Streams: StreamName -> ClientStreams, from the grpc.StreamDesc literals of the service
+// descriptor in api_grpc.pb.go (filled by c15ServiceMethods).
+var c15Streams = map[string]bool{}
+
+func c15ScanStreams(af *ast.File) {
+	ast.Inspect(af, func(n ast.Node) bool {
+		cl, ok := n.(*ast.CompositeLit)
+		if !ok {
+			return true
+		}
+		name, cs, has := "", false, false
+		for _, e := range cl.Elts {
+			kv, ok := e.(*ast.KeyValueExpr)
+			if !ok {
+				continue
+			}
+			k, ok := kv.Key.(*ast.Ident)
+			if !ok {
+				continue
+			}
+			switch k.Name {
+			case "StreamName":
+				if bl, ok := kv.Value.(*ast.BasicLit); ok {
+					name, has = strings.Trim(bl.Value, "\""), true
+				}
+			case "ClientStreams":
+				if id, ok := kv.Value.(*ast.Ident); ok && id.Name == "true" {
+					cs = true
+				}
+			}
+		}
+		if has {
+			c15Streams[name] = cs
+		}
+		return true
+	})
+}
+
 func c15ServiceMethods() ([]string, string) {
 	// version from go.mod
 	gm, err := os.ReadFile(filepath.Join(repo, "go.mod"))
@@ -702,6 +769,7 @@ func c15ServiceMethods() ([]string, string) {
 			return false
 		})
 		if len(names) > 0 {
+			c15ScanStreams(af)
 			return names, p
 		}
 	}
@@ -736,8 +804,9 @@ func genHandlers() *leanFile {
 
 	var effCalls [][3]string
 	var reports, shakes, funcLits, others [][2]string
+	var sessLoops []c15SessLoop
 	t := &c15tr{f: f, local: local, recvNames: recvNames, nonNil: map[string]bool{}, effCalls: &effCalls, reports: &reports,
-		shakes: &shakes, funcLits: &funcLits, others: &others}
+		shakes: &shakes, funcLits: &funcLits, others: &others, recvOK: map[*ast.CallExpr]bool{}, sessLoops: &sessLoops}
 	t.computeReach()
 
 	// report functions must really be refusal reports
@@ -878,6 +947,80 @@ func genHandlers() *leanFile {
 	l.lines = append(l.lines, "/-- One skeleton per RPC method of the client API, plus the async publish loop. -/",
 		"def handlers : List Handler := ["+strings.Join(names, ", ")+"]")
 
+	// ---- streaming RPCs and their per-message loops ----
+	var streaming, clientStreaming []string
+	for _, m := range methods {
+		fd := f.fn("apiServer." + m)
+		if fd == nil {
+			continue
+		}
+		isStream := false
+		for _, p := range fd.Type.Params.List {
+			if strings.HasPrefix(f.src(p.Type), "client.API_") {
+				isStream = true
+			}
+		}
+		cs, known := c15Streams[m]
+		if isStream != known && len(c15Streams) > 0 {
+			lost = append(lost, apiGo+":"+m+" (stream parameter and the service descriptor disagree on whether this is a streaming RPC)")
+		}
+		if !isStream {
+			continue
+		}
+		streaming = append(streaming, m)
+		if !known {
+			// descriptor not available: a handler that calls Recv is client-streaming
+			cs = false
+			for _, sl := range sessLoops {
+				if sl.fn == m {
+					cs = true
+				}
+			}
+		}
+		if cs {
+			clientStreaming = append(clientStreaming, m)
+			n := 0
+			for _, sl := range sessLoops {
+				if sl.fn == m {
+					n++
+				}
+			}
+			if n == 0 {
+				lost = append(lost, apiGo+":"+m+" (client-streaming RPC without a recognisable per-message Recv loop)")
+			}
+		}
+	}
+	l.def("streamingMethods", "List String", qs(streaming), "RPCs whose handler takes a client.API_*Server stream")
+	l.def("clientStreamingMethods", "List String", qs(clientStreaming), "of those, the ones whose descriptor says ClientStreams (requests arrive one by one on the stream): each must have a per-message loop below")
+	var slNames []string
+	for i, sl := range sessLoops {
+		h := handler{}
+		for _, x := range hl {
+			if x.name == sl.fn {
+				h = x
+			}
+		}
+		act := sl.fn
+		if a, ok := c15ExpectedAct[sl.fn]; ok {
+			act = a
+		}
+		res := sl.body.firstCheck(act)
+		if res == "" {
+			res = "<none>"
+		}
+		_ = h
+		id := fmt.Sprintf("sl_%s_%d", sl.fn, i)
+		slNames = append(slNames, id)
+		l.lines = append(l.lines, fmt.Sprintf("/-- body of the per-message loop at api.go:%d as reached from handler %s (one iteration = one received request) -/", sl.line, sl.fn),
+			fmt.Sprintf("def b_%s : Stmt :=\n  %s", id, sl.body.lean("  ")),
+			fmt.Sprintf("def %s : Handler := { name := %q, res := %q, act := %q, body := b_%s }", id, sl.fn, res, act, id))
+	}
+	l.lines = append(l.lines, "/-- Every `for` of the handlers whose body starts an iteration with `<stream>.Recv()`: the loop BODY as a pseudo-handler (name = the RPC it is reached from). -/",
+		"def sessionLoops : List Handler := ["+strings.Join(slNames, ", ")+"]")
+
+	// ---- ensureAuthorizationPermission as a decision tree ----
+	l.lines = append(l.lines, c15DecisionTree(f)...)
+
 	// ---- ensureAuthorizationPermission / enforcePolicy shape (policy read per call) ----
 	l.cmp("guardEmptyClient", apiGo, "apiServer."+c15CheckFn, `clientID ? ""`, 0, "eq")
 	ok := func(b bool, what string) string {
@@ -985,4 +1128,324 @@ func c15RPCShaped(f *file, fd *ast.FuncDecl) bool {
 		}
 	}
 	return false
+}
+
+// ---- ensureAuthorizationPermission as a decision tree (Authz.DTree) ----
+//
+// Every statement of the function must be one of: the binding of the client id from the
+// context (`id, _ := ctx.Value(key).(string)` / `id, ok := …`), the binding of
+// `enforcePolicy(id, …)`, an `if` over the configuration switch / the comma-ok / the id
+// compared with "" / the enforce error / the enforce boolean (combined with ! && ||), a
+// `return`, a logging call, or an assignment of a formatted string to a fresh variable.
+// Anything else is a lost decision point and a `.lost` leaf (which evaluates to allow, so
+// no theorem can rest on it).
+
+type c15dt struct {
+	k    string // ret ite lost
+	out  string // Lean term of a DOut
+	cond string // Lean term of a DCond
+	t, e *c15dt
+}
+
+func (d *c15dt) lean(ind string) string {
+	switch d.k {
+	case "ret":
+		return "(.ret " + d.out + ")"
+	case "ite":
+		return fmt.Sprintf("(.ite %s\n%s  %s\n%s  %s)", d.cond, ind, d.t.lean(ind+"  "), ind, d.e.lean(ind+"  "))
+	}
+	if d.k == "fall" {
+		return "FALL"
+	}
+	return ".lost"
+}
+
+type c15dec struct {
+	f                                    *file
+	recv, ctx                            string
+	idVar, idOkVar, enfOkVar, enfErrVar string
+	nonNil                               map[string]bool
+}
+
+func (d *c15dec) lose(what string) *c15dt {
+	lost = append(lost, apiGo+":"+c15CheckFn+" (decision tree: "+what+")")
+	return &c15dt{k: "lost"}
+}
+
+func (d *c15dec) tracked(name string) bool {
+	return name != "" && name != "_" && (name == d.idVar || name == d.idOkVar || name == d.enfOkVar || name == d.enfErrVar || name == d.ctx || name == d.recv)
+}
+
+var c15FlipCmp = map[string]string{"lt": "gt", "le": "ge", "gt": "lt", "ge": "le", "eq": "eq", "ne": "ne"}
+
+func isEmptyStringLit(e ast.Expr) bool {
+	bl, ok := e.(*ast.BasicLit)
+	return ok && bl.Kind == token.STRING && (bl.Value == `""` || bl.Value == "``")
+}
+
+func (d *c15dec) cond(e ast.Expr, t, el *c15dt) *c15dt {
+	ite := func(c string) *c15dt { return &c15dt{k: "ite", cond: c, t: t, e: el} }
+	switch x := e.(type) {
+	case *ast.ParenExpr:
+		return d.cond(x.X, t, el)
+	case *ast.UnaryExpr:
+		if x.Op == token.NOT {
+			return d.cond(x.X, el, t)
+		}
+	case *ast.Ident:
+		if x.Name == d.enfOkVar && d.enfOkVar != "" {
+			return ite(".enfOk")
+		}
+		if x.Name == d.idOkVar && d.idOkVar != "" {
+			return ite(".hasID")
+		}
+	case *ast.SelectorExpr:
+		if nows(d.f.src(x)) == d.recv+".config.TLSClientAuthz" {
+			return ite(".enabled")
+		}
+	case *ast.BinaryExpr:
+		switch x.Op {
+		case token.LAND:
+			return d.cond(x.X, d.cond(x.Y, t, el), el)
+		case token.LOR:
+			return d.cond(x.X, t, d.cond(x.Y, t, el))
+		}
+		op, isCmp := cmpName[x.Op]
+		if !isCmp {
+			break
+		}
+		isID := func(e ast.Expr) bool {
+			id, ok := e.(*ast.Ident)
+			return ok && d.idVar != "" && id.Name == d.idVar
+		}
+		isLenID := func(e ast.Expr) bool {
+			ce, ok := e.(*ast.CallExpr)
+			return ok && d.f.src(ce.Fun) == "len" && len(ce.Args) == 1 && isID(ce.Args[0])
+		}
+		isZero := func(e ast.Expr) bool {
+			bl, ok := e.(*ast.BasicLit)
+			return ok && bl.Kind == token.INT && bl.Value == "0"
+		}
+		switch {
+		case isID(x.X) && isEmptyStringLit(x.Y), isLenID(x.X) && isZero(x.Y):
+			return ite("(.idVsEmpty ." + op + ")")
+		case isEmptyStringLit(x.X) && isID(x.Y), isZero(x.X) && isLenID(x.Y):
+			return ite("(.idVsEmpty ." + c15FlipCmp[op] + ")")
+		}
+		if v := neqNil(e); v != "" && v == d.enfErrVar {
+			return ite(".enfErr")
+		}
+		if xi, ok := x.X.(*ast.Ident); ok && x.Op == token.EQL && xi.Name == d.enfErrVar && d.enfErrVar != "" {
+			if yi, ok := x.Y.(*ast.Ident); ok && yi.Name == "nil" {
+				return &c15dt{k: "ite", cond: ".enfErr", t: el, e: t}
+			}
+		}
+	}
+	return d.lose("condition not understood: " + d.f.src(e))
+}
+
+func (d *c15dec) ret(rs *ast.ReturnStmt) *c15dt {
+	allow := &c15dt{k: "ret", out: ".allow"}
+	refuse := func(why string) *c15dt {
+		if len(why) > 60 {
+			why = why[:60]
+		}
+		return &c15dt{k: "ret", out: fmt.Sprintf("(.refuse %q)", why)}
+	}
+	if len(rs.Results) != 1 {
+		return d.lose("return with other than one result")
+	}
+	switch x := rs.Results[0].(type) {
+	case *ast.Ident:
+		if x.Name == "nil" {
+			return allow
+		}
+		if x.Name == d.enfErrVar && d.enfErrVar != "" {
+			if d.nonNil[x.Name] {
+				return refuse("enforce error")
+			}
+			return &c15dt{k: "ite", cond: ".enfErr", t: refuse("enforce error"), e: allow}
+		}
+	case *ast.CallExpr:
+		if c15ErrCtors[calleeText(d.f, x)] {
+			return refuse(d.f.src(x))
+		}
+	}
+	return d.lose("return value not understood: " + d.f.src(rs.Results[0]))
+}
+
+var c15PureFns = regexp.MustCompile(`^(fmt\.Sprintf|fmt\.Sprint|strings\.\w+|errors\.\w+|status\.\w+)$`)
+
+func (d *c15dec) pureExpr(e ast.Expr) bool {
+	ok := true
+	ast.Inspect(e, func(n ast.Node) bool {
+		if ce, isCE := n.(*ast.CallExpr); isCE && !c15PureFns.MatchString(calleeText(d.f, ce)) {
+			ok = false
+		}
+		if _, isFL := n.(*ast.FuncLit); isFL {
+			ok = false
+		}
+		return ok
+	})
+	return ok
+}
+
+// assign: returns false if the statement is not understood.
+func (d *c15dec) assign(as *ast.AssignStmt) bool {
+	names := make([]string, len(as.Lhs))
+	for i, l := range as.Lhs {
+		id, ok := l.(*ast.Ident)
+		if !ok {
+			return false
+		}
+		names[i] = id.Name
+	}
+	if len(as.Rhs) == 1 {
+		// id, ok := ctx.Value(key).(string)
+		if ta, ok := as.Rhs[0].(*ast.TypeAssertExpr); ok && len(names) == 2 && ta.Type != nil && d.f.src(ta.Type) == "string" {
+			if ce, ok := ta.X.(*ast.CallExpr); ok && nows(d.f.src(ce.Fun)) == d.ctx+".Value" && len(ce.Args) == 1 {
+				if d.idVar != "" || d.tracked(names[0]) || d.tracked(names[1]) {
+					return false
+				}
+				d.idVar = names[0]
+				if names[1] != "_" {
+					d.idOkVar = names[1]
+				}
+				return names[0] != "_"
+			}
+		}
+		// ok, err := a.enforcePolicy(id, …)
+		if ce, ok := as.Rhs[0].(*ast.CallExpr); ok && nows(d.f.src(ce.Fun)) == d.recv+".enforcePolicy" {
+			if len(names) != 2 || len(ce.Args) != 3 || d.idVar == "" || d.f.src(ce.Args[0]) != d.idVar || d.enfOkVar != "" {
+				return false
+			}
+			if names[0] == "_" || names[1] == "_" || names[0] == d.idVar || names[1] == d.idVar {
+				return false
+			}
+			// `ok` of the type assertion may be shadowed by the enforce boolean from here on
+			if names[0] == d.idOkVar || names[1] == d.idOkVar {
+				d.idOkVar = ""
+			}
+			d.enfOkVar, d.enfErrVar = names[0], names[1]
+			return true
+		}
+	}
+	// fresh variables from pure expressions (message formatting)
+	for _, n := range names {
+		if d.tracked(n) {
+			return false
+		}
+	}
+	for _, r := range as.Rhs {
+		if !d.pureExpr(r) {
+			return false
+		}
+	}
+	return true
+}
+
+func (d *c15dec) block(list []ast.Stmt, k *c15dt) *c15dt {
+	if len(list) == 0 {
+		return k
+	}
+	rest := func() *c15dt { return d.block(list[1:], k) }
+	switch x := list[0].(type) {
+	case *ast.EmptyStmt:
+		return rest()
+	case *ast.BlockStmt:
+		return d.block(append(append([]ast.Stmt{}, x.List...), list[1:]...), k)
+	case *ast.ReturnStmt:
+		return d.ret(x)
+	case *ast.ExprStmt:
+		if ce, ok := x.X.(*ast.CallExpr); ok && regexp.MustCompile(`^\w+\.logger\.\w+$`).MatchString(calleeText(d.f, ce)) {
+			pure := true
+			for _, a := range ce.Args {
+				pure = pure && d.pureExpr(a)
+			}
+			if pure {
+				return rest()
+			}
+		}
+		return d.lose("statement not understood: " + d.f.src(x))
+	case *ast.AssignStmt:
+		if !d.assign(x) {
+			return d.lose("assignment not understood: " + d.f.src(x))
+		}
+		return rest()
+	case *ast.IfStmt:
+		if x.Init != nil {
+			as, ok := x.Init.(*ast.AssignStmt)
+			if !ok || !d.assign(as) {
+				return d.lose("if-initialiser not understood: " + d.f.src(x.Init))
+			}
+		}
+		// the condition is resolved FIRST, against the variables bound so far (a later
+		// `ok, err := enforcePolicy(…)` may rebind a name the condition uses)
+		ct := d.cond(x.Cond, &c15dt{k: "T"}, &c15dt{k: "E"})
+		v := neqNil(x.Cond)
+		old := d.nonNil[v]
+		if v != "" {
+			d.nonNil[v] = true
+		}
+		th := d.block(x.Body.List, &c15dt{k: "fall"})
+		if v != "" {
+			d.nonNil[v] = old
+		}
+		el := &c15dt{k: "fall"}
+		if x.Else != nil {
+			el = d.block([]ast.Stmt{x.Else}, &c15dt{k: "fall"})
+		}
+		r := rest()
+		return c15Place(ct, c15Subst(th, r), c15Subst(el, r))
+	}
+	return d.lose(fmt.Sprintf("statement not understood: %T", list[0]))
+}
+
+// c15Subst replaces the "fall off the end of the branch" leaves by the continuation.
+func c15Subst(t, k *c15dt) *c15dt {
+	switch t.k {
+	case "fall":
+		return k
+	case "ite":
+		return &c15dt{k: "ite", cond: t.cond, t: c15Subst(t.t, k), e: c15Subst(t.e, k)}
+	}
+	return t
+}
+
+// c15Place puts the branch trees at the T / E placeholders of a resolved condition.
+func c15Place(ct, th, el *c15dt) *c15dt {
+	switch ct.k {
+	case "T":
+		return th
+	case "E":
+		return el
+	case "ite":
+		return &c15dt{k: "ite", cond: ct.cond, t: c15Place(ct.t, th, el), e: c15Place(ct.e, th, el)}
+	}
+	return ct
+}
+
+func c15DecisionTree(f *file) []string {
+	fd := f.fn("apiServer." + c15CheckFn)
+	tree := &c15dt{k: "lost"}
+	if fd == nil || fd.Body == nil || fd.Recv == nil || len(fd.Recv.List[0].Names) != 1 {
+		lost = append(lost, apiGo+":"+c15CheckFn+" (function not found)")
+	} else {
+		d := &c15dec{f: f, recv: fd.Recv.List[0].Names[0].Name, nonNil: map[string]bool{}}
+		if ps := fd.Type.Params.List; len(ps) > 0 && len(ps[0].Names) == 1 && f.src(ps[0].Type) == "context.Context" {
+			d.ctx = ps[0].Names[0].Name
+		}
+		if d.ctx == "" {
+			lost = append(lost, apiGo+":"+c15CheckFn+" (decision tree: first parameter is not a context.Context)")
+		} else {
+			tree = d.block(fd.Body.List, &c15dt{k: "lost"})
+			if strings.Contains(tree.lean(""), "FALL") {
+				tree = d.lose("internal: unresolved continuation")
+			}
+		}
+	}
+	return []string{
+		"/-- `ensureAuthorizationPermission` as a decision tree: every `if` and every `return` of the function, in source order. -/",
+		"def ensureDecision : DTree :=\n  " + tree.lean("  "),
+	}
 }
